@@ -57,7 +57,7 @@ def run(names):
             pf = os.path.join(d, 'patch.rebased.diff') if os.path.exists(os.path.join(d, 'patch.rebased.diff')) else os.path.join(d, 'patch.diff')
             rc, out = sh(['git', 'apply', '--unsafe-paths', '--directory', tmp, pf], cwd='/')
             if rc != 0:
-                rc, out = sh(['patch', '-p1', '-s', '-d', tmp, '-i', pf])
+                rc, out = sh(['patch', '-p1', '-s', '--fuzz=0', '-d', tmp, '-i', pf])          # no fuzz: a hunk that no longer matches must be rebased by hand, not guessed
             if rc != 0: print(os.path.basename(d), 'PATCH FAILED', out[-300:]); continue
             props = meta['property'] if isinstance(meta['property'], list) else [meta['property']]
             res = {}
